@@ -94,6 +94,7 @@ let parse_op tok : vop =
   let c = tok.[0] and rest = String.sub tok 1 (String.length tok - 1) in
   match c with
   | 'T' -> VoSetNow (z_of_string rest)
+  | 'L' -> VoSetLimit (if rest = "-" then None else Some (z_of_string rest))
   | 'P' -> VoPoll (List.map (function 'S' -> TSent | 'P' -> TPending | 'E' -> TEmsgsize | _ -> TIoErr)
                      (List.of_seq (String.to_seq rest)))
   | 'M' ->
